@@ -106,6 +106,19 @@ CLAIMS = {
   note=TB + "The theorem is about argument routing; bit-reproducibility of the numerical libraries given the same seeds is established by the paired runs (exploration supporting the tie), not by proof. Ambient entropy is controlled by "
        "patching argument-less default_rng, the ArrayRNG double and torch's global seed. Emcee/EmceeSMC accept no generator (numpy global state): outside the quantifier.",
   technique="Lean 4 proof (decision table, regenerated from source) + paired-run non-interference check"),
+ "C03": dict(
+  text="Theorems about the model of Flow.log_prob / sample_and_log_prob (neural density `base` abstract): the log-density returned with a draw equals log_prob at the draw for every base and every composite data transform "
+       "(all on/off combinations, logit and probit) outside the clipping margin; draws lie strictly inside declared bounds (periodic ones in [lo,hi)); in 1-D the proposal integrates to one over the native interval given a normalised base "
+       "(change of variables, both bounded kinds; exact mass formulas with the eps-clip). Real zuko and flowjax flows (untrained, trained, reloaded) are compared with base(T x)+log|J| from the model and pointwise with their own draws.",
+  note=TB + "PARTIAL for the network: that zuko/flowjax networks are normalised densities with exact bijections is a hypothesis of the theorems (supported only by 1-D quadrature, labelled exploration). The theorems show that exact "
+       "normalisation holds with eps = 0 or on the interval minus the clipping margin (clipped_total_mass gives the exact deviation). erf/erfinv satisfy ProbitOK (proved satisfiable).",
+  technique="Lean 4 proof (Mathlib change of variables, transform algebra) + differential correspondence on real flows; quadrature as supporting exploration"),
+ "C04": dict(
+  text="Theorems (Mathlib HasDerivAt): for every transform class and EVERY on/off combination of the composite (by induction over the kind vector) inverse(forward x) = x on admissible points, the inverse log-Jacobian is the negative of "
+       "the forward one at the corresponding point, the reported forward term equals log|d f/dx| per coordinate (logit, probit via the inverse function theorem, affine, periodic derivative 1) and the row term equals log|det| of the diagonal "
+       "Jacobian (Matrix.det_diagonal); periodic wrapping lands in [lo,hi), is congruent modulo the period, unique and idempotent; fit returns exactly the forward image. All classes x 3 namespaces x 2 widths are run against the model.",
+  note=TB + "Over the reals; ProbitOK (erf/erfinv identities and derivative) is a hypothesis about scipy, proved satisfiable; floating-point `%` rounding at period boundaries is a known finding; the driver's erf/erfinv are numerical.",
+  technique="Lean 4 proof (calculus in Mathlib) + differential correspondence on forward/inverse/fit + finite-difference and round-trip oracle"),
 }
 NOT_YET = "check not built yet (work in progress; see DESIGN.md section 10)"
 
